@@ -174,6 +174,15 @@ def run_case(c):
     for k in c["ks"]:
         rng = scenario.rng_for(c["seed"], "C14", "%d-%d" % (n, k))
         p = pool[k]
+        if (n + k) % 3 == 0 and golden()["functions"].get("%d_%d" % (n, k)) is not None:
+            # the object was solved a little first, as the shipped examples do (console listener attached, with / without refinement):
+            # function (n, k) is the same function afterwards, and everything below is audited on the used object
+            how = bench.use_instance(p, 1 + 2 * ((n + k) // 3 % 2) + 4 * k)
+            obs["functions_audited_after:" + how] = obs.get("functions_audited_after:" + how, 0) + 1
+            obs["functions_audited_after_use"] = obs.get("functions_audited_after_use", 0) + 1
+            what = structure_differs(p, n, k)
+            if what is not None:
+                viol.append({"n": n, "k": k, "mech": "gkls:function-changed-by-use", "differs_in": what, "use": how})
         fn = p.function
         mn = fn.GKLS_minima
         M = np.array(mn.local_min, dtype=float)
@@ -325,7 +334,7 @@ def EXHAUSTIVE(tier):
 def finalize(obs, tier, stats):
     if obs.get("functions", 0) != 400:
         return "only %d of 400 functions audited" % obs.get("functions", 0), {}
-    for k in ("knuth_check", "minimiser_after_interior_point", "box_boundary_points", "paraboloid_points", "interior_points", "boundary_pairs", "reference_values_compared", "live_instances_during_audit", "rebuild_constructions", "earlier_instances_reaudited", "regenerations", "regenerated_basin_values"):
+    for k in ("knuth_check", "minimiser_after_interior_point", "box_boundary_points", "paraboloid_points", "interior_points", "boundary_pairs", "reference_values_compared", "live_instances_during_audit", "rebuild_constructions", "earlier_instances_reaudited", "regenerations", "regenerated_basin_values", "functions_audited_after_use"):
         if not obs.get(k):
             return "%s never observed" % k, {}
     if obs.get("max_constructions_of_one_pair", 0) < 5:
